@@ -93,13 +93,24 @@ func traceOnce(x *mc.Cell, ops []int, prefix []int) []string {
 	return out
 }
 
-func c20Interleave(x *mc.Cell, ops []int, bound int) {
+func c20Interleave(x *mc.Cell, ops []int, bound int) { c20InterleaveCap(x, ops, bound, 4000) }
+
+func c20InterleaveCap(x *mc.Cell, ops []int, bound int, maxExec int64) {
 	names := ""
 	for _, o := range ops {
 		names += conOps[o].name + "+"
 	}
-	name := "c20-interleave/" + names
-	x.Enumerate(name, mc.EnumOpts{MaxDeviations: bound, DeviationCost: sched.Cost, MaxExecutions: 4000}, c20Body(x, ops, name, names))
+	name := fmt.Sprintf("c20-interleave/%sb%d", names, bound)
+	x.Enumerate(name, mc.EnumOpts{MaxDeviations: bound, DeviationCost: sched.Cost, MaxExecutions: maxExec}, c20Body(x, ops, name, names))
+}
+
+func opIdx(name string) int {
+	for i, o := range conOps {
+		if o.name == name {
+			return i
+		}
+	}
+	panic("unknown op " + name)
 }
 
 func c20Body(x *mc.Cell, ops []int, name, names string) mc.Body {
@@ -180,7 +191,12 @@ func c20Body(x *mc.Cell, ops []int, name, names string) mc.Body {
 			}
 			mu.Unlock()
 			ex.Premise = true
-			hang, _ := mc.Call(func() { _ = w.Mgr.Stop(context.Background()) })
+			// Stop is the harness's teardown; when Stop was one of the operations under test (and returned) it is not
+			// called a second time.
+			hang := false
+			if !strings.Contains(names, "stop") {
+				hang, _ = mc.Call(func() { _ = w.Mgr.Stop(context.Background()) })
+			}
 			w.MarkStopped()
 			if !hang {
 				for _, r := range w.GS.Reqs {
@@ -188,12 +204,24 @@ func c20Body(x *mc.Cell, ops []int, name, names string) mc.Body {
 				}
 				mc.Wait()
 				closed = true
+				if sites := mc.BlockedSites(); len(sites) > 0 {
+					// a goroutine is blocked for good inside this library (e.g. a transport callback that never returns)
+					stacks := mc.BlockedStacks(6)
+					mc.Unblock()
+					x.Violate("C20", fmt.Sprintf("interleaving;goroutine-left-blocked;blocked-in=%s;stop-involved=%v", strings.Join(sites, "+"), strings.Contains(names, "stop")), fmt.Sprintf("after all operations returned and the manager was stopped, goroutine(s) are still blocked inside the library; schedule: %v\n%s", s.Trace, stacks), rep)
+					x.Die()
+				}
 				if left := mc.BlockedStacks(3); left != "" {
-					// a goroutine of the state-machine dependency is blocked for good (an event was sent to a
-					// state machine created after the group was stopped): the bubble cannot end. This is a leak in
-					// go-statemachine's notifier hand-off, not a goroutine blocked on a lock of this library.
+					// a goroutine of the state-machine dependency is left behind (an event was sent to a state machine
+					// created after the group was stopped: go-statemachine's notifier hand-off has no receiver any
+					// more). This is a leak in the dependency, not a goroutine blocked on a lock of this library; the
+					// vendored go-statemachine has teardown escapes, so the bubble can still be ended.
 					x.Note("dependency_goroutine_leak_after_stop", 1)
-					x.Abandon("a go-statemachine goroutine stays blocked after Stop (operation raced with Stop); execution not torn down")
+					mc.Unblock()
+					mc.Wait()
+					if still := mc.BlockedStacks(3); still != "" {
+						x.Abandon("a goroutine stays blocked after Stop and cannot be torn down: " + still)
+					}
 				}
 			}
 			if hang {
@@ -209,6 +237,15 @@ func c20Body(x *mc.Cell, ops []int, name, names string) mc.Body {
 }
 
 func init() {
+	// two restarts racing with a remote cancel, two preemptions: the schedule class in which both restarts give up on
+	// a cleaned-up channel and their graphsync hooks report afterwards (found by the free-running pass first, see
+	// DESIGN 9.3 F7); capped depth-first enumeration, the cap is reported
+	mc.Register("C20", "interleave-2-preemptions/restart+restart+peer-cancels", "quick", func(x *mc.Cell) {
+		c20InterleaveCap(x, []int{opIdx("restart"), opIdx("restart"), opIdx("peer-cancels")}, 2, 9000)
+	})
+	mc.Register("C20", "interleave-2-preemptions/restart+restart+peer-cancels", "thorough", func(x *mc.Cell) {
+		c20InterleaveCap(x, []int{opIdx("restart"), opIdx("restart"), opIdx("peer-cancels")}, 2, 60000)
+	})
 	n := len(conOps)
 	for a := 0; a < n; a++ {
 		for b := a; b < n; b++ {
